@@ -309,6 +309,90 @@ def empty_projs(c):
     return [("a", c["mode"], c["dk"], first_empty, bool(c["fail"])), ("b", c["mode"], c["start"], first_empty), ("c", c["mode"], kinds[:1], first_empty)]
 
 
+def spelling_candidates(ctx):
+    """File directives in every spelling the unchanged tree accepts (c13_lib.SPELLINGS), differing from the
+    global mode, on the file that fails."""
+    rng = ctx.rand("spelling-cases")
+    cands = []
+    for si, shape in enumerate([[3], [2, 3], [3, 2], [1, 4, 2]]):
+        nf = len(shape)
+        for f in range(nf):
+            for s_ in range(shape[f]):
+                if (f, s_) == (0, 0):
+                    continue
+                for mode, dv in (("file", "none"), ("none", "file")):
+                    for sp in L.SPELLINGS:
+                        if sp == "canon":
+                            continue
+                        dirs, sps = [None] * nf, [None] * nf
+                        dirs[f], sps[f] = dv, sp
+                        fail = [f, s_, rng.choice([x for x in L.FAIL_KINDS if x != "fk"])]
+                        cands.append({"part": "apply", "shape": shape, "shape_id": 400 + si, "directives": dirs, "spellings": sps, "dk": "F:" + dv,
+                                      "mode": mode, "fail": fail, "fails": [fail], "start": "fresh", "prefix": 0, "cnt": "-", "count": None,
+                                      "fk": False, "dseed": rng.getrandbits(32), "busy": True, "samefile": False, "spelling": sp})
+    return cands
+
+
+def spelling_projs(c):
+    return [("a", c["spelling"], c["mode"])]
+
+
+def big_cases(ctx):
+    """One deterministic family: 101-130 one-statement files in ONE run, failure in file 101 / 120 / last."""
+    rng = ctx.rand("big-cases")
+    out = []
+    plan = [("all", 101, 100), ("all", 130, 119), ("all", 115, 114), ("file", 104, 100), ("none", 101, 100)]
+    if not ctx.quick():
+        plan += [("all", 130, 100), ("all", 130, 129), ("file", 130, 129), ("none", 130, 119), ("all", 101, 50)]
+    for mode, n, fi in plan:
+        fail = [fi, 0, rng.choice(["missing", "dup", "check", "exists"])]
+        out.append({"part": "apply", "shape": [1] * n, "shape_id": 500, "directives": [None] * n, "dk": "nodir", "mode": mode, "fail": fail,
+                    "fails": [fail], "start": "fresh", "prefix": 0, "cnt": "-", "count": None, "fk": False, "dseed": rng.getrandbits(32),
+                    "busy": True, "samefile": False, "big": n})
+    return out
+
+
+def checkpoint_candidates(ctx):
+    """Directories with two or three checkpoint files and ordinary files after the last one. On a database
+    without revisions the run starts at the LAST checkpoint (observed on the unchanged tree: everything before
+    it is neither executed nor recorded). Returns (sensitive, other): sensitive = the failing statement is
+    inside the last checkpoint and that file runs without a transaction (its partial revision is resumed)."""
+    rng = ctx.rand("checkpoint-cases")
+    layouts = [([1, 2, 1, 4, 1, 1, 1], [1, 3]), ([2, 3, 3, 2, 1], [1, 2]), ([1, 1, 2, 1, 3, 2, 1, 2], [1, 3, 4]), ([2, 2, 1, 3, 1, 2], [0, 3])]
+    sens, other = [], []
+    for si, (shape, cps) in enumerate(layouts):
+        nf, last = len(shape), cps[-1]
+        positions = [(f, s_) for f in range(last, nf) for s_ in range(shape[f])] + [None]
+        for pos in positions:
+            for mode in ("none", "file", "all"):
+                for dk in ("nodir", "F:none", "F:file"):
+                    if mode == "all" and dk != "nodir":
+                        continue
+                    for start in ("fresh", "revtable"):
+                        dirs = [None] * nf
+                        F = pos[0] if pos else nf - 1
+                        if dk != "nodir":
+                            dirs[F] = dk[2:]
+                        fail = None
+                        if pos:
+                            fail = [pos[0], pos[1], "missing" if pos == (last, 0) else rng.choice([x for x in L.FAIL_KINDS if x != "fk"])]
+                        c = {"part": "apply", "shape": shape, "shape_id": 600 + si, "directives": dirs, "dk": dk, "mode": mode, "checkpoints": cps,
+                             "journal_at": [last, 0], "start_done": last, "fail": fail, "fails": [fail] if fail else [], "start": start, "prefix": 0,
+                             "cnt": "-", "count": None, "fk": False, "dseed": rng.getrandbits(32), "busy": True, "samefile": False}
+                        eff = dirs[F] or mode
+                        if fail and fail[0] == last and eff == "none":
+                            sens.append(c)
+                        else:
+                            other.append(c)
+    return sens, other
+
+
+def checkpoint_projs(c):
+    eff = (c["directives"][c["fail"][0]] or c["mode"]) if c["fail"] else c["mode"]
+    where = "nofail" if not c["fail"] else "in-last-checkpoint" if c["fail"][0] == c["start_done"] else "in-tail"
+    return [("a", c["mode"], eff, where), ("b", c["shape_id"], where, c["mode"]), ("c", c["start"], c["mode"], where)]
+
+
 def fix_projs(c):
     eff = c["directives"][c["fail"][0]] or c["mode"]
     return [("a", c["mode"], eff, c["fixkinds"][0], spos_class(c["shape"], c["fail"])), ("b", c["fixkinds"][0], c["start"], c["mode"])]
@@ -434,11 +518,11 @@ def sample_multi(mode):
     return take
 
 
-def clean_reference(ctx, files, dirty, fk):
+def clean_reference(ctx, files, dirty, fk, start_done=0):
     """Dump of the fixed directory applied to a fresh database (default file mode), cached per content.
     It is itself checked against the model."""
     text = L.render(files)
-    key = digest(text, dirty, fk)
+    key = digest(text, dirty, fk, start_done)
     with _clean_lock:
         if key in _clean_cache:
             return _clean_cache[key]
@@ -456,9 +540,9 @@ def clean_reference(ctx, files, dirty, fk):
         args, (rc, out, err) = cli_apply(ctx, d, mdir, db, "file", extra=["--allow-dirty"] if dirty else [], fk=fk)
         after = dump_db(db)
         sums = L.read_sums(mdir)
-        exp = L.expect_apply(files, sums, L.St(), "file", None, None, fk)
+        exp = L.expect_apply(files, sums, L.St(done=start_done), "file", None, None, fk)
         j = Judge(ctx, case, Events(False), d)
-        if j.judge("clean", L.St(), exp, before, after, db + ".before", rc, out, err, args, "-", "file") is not None:
+        if j.judge("clean", L.St(done=start_done), exp, before, after, db + ".before", rc, out, err, args, "-", "file") is not None:
             res = (after, sums)
     with _clean_lock:
         _clean_cache[key] = res
@@ -475,7 +559,9 @@ def run_apply_case(ctx, case, verbose=False):
     ev = Events(verbose)
     d = ctx.casedir("-apply")
     mdir, db = os.path.join(d, "m"), os.path.join(d, "x.db")
-    good = L.gen_files(random.Random(case["dseed"]), case["shape"], case["directives"], case.get("empties"))
+    good = L.gen_files(random.Random(case["dseed"]), case["shape"], case["directives"], case.get("empties"),
+                       checkpoints=case.get("checkpoints"), journal_at=case.get("journal_at"), spellings=case.get("spellings"))
+    start_done = case.get("start_done", 0)  # checkpoint directories: a fresh database starts at the LAST checkpoint
     rem = sorted(tuple(x) for x in (case.get("fails") or ([case["fail"]] if case["fail"] else [])))
     allfails, fixkinds, nfixed = list(rem), case.get("fixkinds") or [], 0
     multi = len(rem) > 1
@@ -500,7 +586,7 @@ def run_apply_case(ctx, case, verbose=False):
 
     remember(sums)
     extra = []
-    st = L.St()
+    st = L.St(done=start_done)
     j = Judge(ctx, case, ev, d)
     eff = eff_of(fail)
     # ---- start state ----
@@ -533,6 +619,13 @@ def run_apply_case(ctx, case, verbose=False):
     after = dump_db(db)
     exp = L.expect_apply(bad, sums, st, mode, case["count"], fail, fk)
     ctx.count("apply-run:" + ("expected-failure" if exp.fails else "expected-success"))
+    if exp.fails and fail:
+        if mode == "all" and fail[0] - st.done >= 100:
+            ctx.count("all-mode:failure-after-100-or-more-files-of-one-run")
+        if case.get("checkpoints") and fail[0] == start_done and eff == "none":
+            ctx.count("checkpoint:last-checkpoint-fails-without-transaction-and-is-resumed")
+        if case.get("spelling") and eff != mode:
+            ctx.count("directive-spelling:non-canonical-directive-decides-the-outcome")
     if mode == "all" and exp.fails and fail and st.done < len(bad) and not bad[st.done]["stmts"] and fail[0] > st.done and not any(case["directives"]):
         ctx.count("all-mode:failure-after-a-statement-less-first-pending-file")
     if exp.fails:
@@ -602,7 +695,7 @@ def run_apply_case(ctx, case, verbose=False):
                     "files_first_run": L.render(bad),
                     "runs": [{k: e.get(k) for k in ("phase", "rc", "model", "verdict", "before_to_after", "stderr")} for e in L.jsonable(ev.items)]}, cap=6)
     # ---- final state == clean run of the fixed directory ----
-    ref = clean_reference(ctx, final_files, case["start"] == "dirty", fk)
+    ref = clean_reference(ctx, final_files, case["start"] == "dirty", fk, start_done)
     if ref is None:
         ctx.inconclusive("clean-reference-unavailable")
         return ev
@@ -961,7 +1054,17 @@ def main():
         ctx.count("statement-less-file|mode=%s|first-pending-file-is-statement-less=%s|%s" % (c["mode"], fe, "later-failure" if c["fail"] else "no-failure"))
         for kd in c["empties"].values():
             ctx.count("statement-less-file|kind=%s" % kd)
-    apply_sel = apply_sel + multi_sel + fix_sel + empty_sel
+    spell_sel = select(ctx, spelling_candidates(ctx), ctx.pick(14, 90), spelling_projs)
+    for c in spell_sel:
+        ctx.count("directive-spelling|%s|global=%s|directive=%s" % (c["spelling"], c["mode"], c["dk"][2:]))
+    big_sel = big_cases(ctx)
+    for c in big_sel:
+        ctx.count("big-directory|mode=%s|files=%d|failing-file=%d" % (c["mode"], c["big"], c["fail"][0] + 1))
+    cp_sens, cp_other = checkpoint_candidates(ctx)
+    cp_sel = select(ctx, cp_sens, ctx.pick(8, 60), checkpoint_projs) + select(ctx, cp_other, ctx.pick(16, 90), checkpoint_projs)
+    for c in cp_sel:
+        ctx.count("checkpoints|%d-checkpoints|mode=%s|%s" % (len(c["checkpoints"]), c["mode"], checkpoint_projs(c)[0][3]))
+    apply_sel = apply_sel + multi_sel + fix_sel + empty_sel + spell_sel + cp_sel + big_sel
     sc = schema_candidates(ctx)
     schema_sel = select(ctx, [c for c in sc if c["approve"] == "auto"], ctx.pick(30, 260), schema_projs) + \
         select(ctx, [c for c in sc if c["approve"] == "prompt"], ctx.pick(14, 100), schema_projs)
@@ -983,7 +1086,7 @@ def main():
         RUNNERS[w[0]](ctx, w[1])
 
     ctx.par(work, one, workers=min(ctx.workers, 16))
-    ctx.finish(RULE, {"cases": {"apply": len(apply_sel), "apply-multi-failure": len(multi_sel), "apply-fix-variants": len(fix_sel), "apply-statement-less-files": len(empty_sel), "schema": len(schema_sel), "dry": len(dry_sel)},
+    ctx.finish(RULE, {"cases": {"apply": len(apply_sel), "apply-multi-failure": len(multi_sel), "apply-fix-variants": len(fix_sel), "apply-statement-less-files": len(empty_sel), "apply-directive-spellings": len(spell_sel), "apply-checkpoints": len(cp_sel), "apply-big-directory": len(big_sel), "schema": len(schema_sel), "dry": len(dry_sel)},
                       "matrix(mode|directive|start|failing-position)": matrix,
                       "exhaustive": False})
     if not os.environ.get("VERIF_KEEP"):
@@ -992,7 +1095,8 @@ def main():
     need = ["apply-failure-model:statement failed in file mode", "apply-failure-model:statement failed in all mode",
             "apply-failure-model:statement failed in none mode", "final-compared-with-clean-run",
             "multi:run-resumes-a-file-that-failed-twice(first after >=1 statement)", "schema-fail|approve=prompt|midway-proven",
-            "all-mode:failure-after-a-statement-less-first-pending-file", "schema:none-mode-sibling|left-partial-changes", "schema-fail|path=alter|midway-proven", "schema-fail|path=rebuild|midway-proven"]
+            "all-mode:failure-after-a-statement-less-first-pending-file", "all-mode:failure-after-100-or-more-files-of-one-run",
+            "checkpoint:last-checkpoint-fails-without-transaction-and-is-resumed", "directive-spelling:non-canonical-directive-decides-the-outcome", "schema:none-mode-sibling|left-partial-changes", "schema-fail|path=alter|midway-proven", "schema-fail|path=rebuild|midway-proven"]
     missing = [k for k in need if not ctx.counters.get(k)]
     if not any(k.startswith("dry-run:migrate-apply|") and k.endswith("statements-shown") for k in ctx.counters):
         missing.append("dry-run:migrate-apply …statements-shown")
